@@ -31,7 +31,7 @@ func TestP1Control(t *testing.T) {
 	rec := ev.New("C03", "control")
 	defer rec.Finish(t)
 	maxTok := ev.Total(40, 120)
-	rec.Rule("control-flow programs from a grammar: procedure literals nested to depth 4 at first/middle/last body position (left on the stack, executed with exec, or popped); if/ifelse with constant and computed conditions; repeat, for (positive and negative increments, empty ranges), forall over arrays, strings of 0-4 drawn bytes (incl. NUL and bytes >= 0x80), single-entry dictionaries and empty arrays, loop with a counter; exit and stop at arbitrary points inside and outside loops; definitions of values and procedures under the names p q x y add pop with later redefinition, calls by name, load, load exec; bind before and after redefinition of operator names; begin/end shapes incl. missing end, stray end, and 10-19 nested dictionaries; known/where. Bodies push distinct trace integers so that the number and operands of iterations show in the final stack. Oracle: reference interpreter with an explicit execution stack (PLRM execution model): equal final state, or equal error name (invalidexit for a stray exit; stop ends the run without error). Non-trivial: nesting depth >= 2 and one of {loop, exit/stop, body-position procedure literal, use of a (re)defined name}; distinct by program text.")
+	rec.Rule("control-flow programs from a grammar: procedure literals nested to depth 4 at first/middle/last body position (left on the stack, executed with exec, or popped); if/ifelse with constant and computed conditions; repeat, for (positive and negative increments, empty ranges), forall over arrays, strings of 0-4 drawn bytes (incl. NUL and bytes >= 0x80), single-entry dictionaries and empty arrays, loop with a counter; exit and stop at arbitrary points inside and outside loops; definitions of values and procedures under the names p q x y add pop with later redefinition, calls by name, load, load exec; loops (repeat, loop, for, forall) whose body is a single name naming a procedure that rebinds that name while it runs (by def, or on a newly begun dictionary); bind before and after redefinition of operator names; begin/end shapes incl. missing end, stray end, and 10-19 nested dictionaries; known/where. Bodies push distinct trace integers so that the number and operands of iterations show in the final stack. Oracle: reference interpreter with an explicit execution stack (PLRM execution model): equal final state, or equal error name (invalidexit for a stray exit; stop ends the run without error). Non-trivial: nesting depth >= 2 and one of {loop, exit/stop, body-position procedure literal, use of a (re)defined name}; distinct by program text.")
 	ev.SetupRapid(150000, 4000000)
 	rapid.Check(t, func(t *rapid.T) {
 		toks, feat := psgen.Control(t, maxTok)
@@ -77,7 +77,7 @@ func TestP2SmallShapes(t *testing.T) {
 		psref.TX("add"), psref.TP(), psref.TX("count"), psref.TX("x"),
 	}
 	maxLen := ev.Total(2, 3)
-	rec.Rule("exhaustive small shapes: every body of 0.." + string(rune('0'+maxLen)) + " tokens over a 12-token alphabet (7, pop, dup, exit, stop, {8}, {exit}, exec, add, {}, count, x) inside each of: exec, true-if, 2-repeat, 0 1 1 for, array forall, string forall (3 bytes, two >= 0x80), loop-with-guard, call by name, and at top level; preceded by /x {9} def and followed by a sentinel. Every (context, body) counts once.")
+	rec.Rule("exhaustive small shapes: every body of 0.." + string(rune('0'+maxLen)) + " tokens over a 12-token alphabet (7, pop, dup, exit, stop, {8}, {exit}, exec, add, {}, count, x) inside each of: exec, true-if, 2-repeat, 0 1 1 for, array forall, string forall (3 bytes, two >= 0x80), loop-with-guard, call by name, and at top level; preceded by /x {/x {10} def 9} def (x rebinds itself on its first call) and followed by a sentinel. Every (context, body) counts once.")
 	contexts := []func(body []psref.Tok) []psref.Tok{
 		func(b []psref.Tok) []psref.Tok { return []psref.Tok{psref.TP(b...), psref.TX("exec")} },
 		func(b []psref.Tok) []psref.Tok { return []psref.Tok{psref.TX("true"), psref.TP(b...), psref.TX("if")} },
@@ -108,7 +108,7 @@ func TestP2SmallShapes(t *testing.T) {
 			if !ev.Mine(k) {
 				continue
 			}
-			toks := []psref.Tok{psref.TL("x"), psref.TP(psref.TI(9)), psref.TX("def")}
+			toks := []psref.Tok{psref.TL("x"), psref.TP(psref.TL("x"), psref.TP(psref.TI(10)), psref.TX("def"), psref.TI(9)), psref.TX("def")}
 			toks = append(toks, ctx(body)...)
 			toks = append(toks, psref.TI(99))
 			res := run(toks)
